@@ -9,7 +9,9 @@ satisfies and which reports exactly that outcome — or that end state is an err
 invalid-destination halt of `jumpi` — known finding —, an OutOfGas raised by halmos' own memory-limit check, the
 model's stack-limit stop) — or a flag is raised: bounded loop, `--depth` cut, or the model's fuel.
 
-`complete_calls`: the same for the frame-stack machine with message calls (`runC`, see `C01.sound_calls`).
+`complete_calls`: the same for the frame-stack machine with message calls (`runC`, see `C01.sound_calls`);
+`complete_calls_create` with CREATE, `complete_calls_hsto` with storage cells at mapping / dynamic-array locations
+followed (the covering end then also describes the hashed cells of the final world).
 
 The only discarding site of the core is `jumpi`; `discard_only_if_unsat` is its lemma, `unknown_never_discards` the
 oracle-free core of it.
